@@ -13,6 +13,7 @@ Local Open Scope string_scope.
 
 Record case := {
   r_prior : prior; r_put : bool; r_rm : bool;
+  r_fix7 : bool;                         (* the code under test has fixes/F7.diff applied (validation runs only) *)
   r_sched : list (tid * string);
   r_sync : bool;
   r_a_ok : bool;                         (* PUT / TOUCH answered 2xx *)
@@ -45,7 +46,7 @@ Definition multiset_eqb (a b : list (cont * age)) : bool :=
 
 Definition model_b (c : case) : bool :=
   r_sync c &&
-  match replay (init (r_prior c) (r_put c) (r_rm c)) (r_sched c) with
+  match replay (init7 (r_prior c) (r_put c) (r_rm c) (r_fix7 c)) (r_sched c) with
   | None => false
   | Some s =>
     match succs s with
@@ -76,7 +77,7 @@ Fixpoint index_of (t : tid) (l : string) (sch : list (tid * string)) (i : nat) :
   | (t', l') :: r => if tid_eqb t t' && String.eqb l l' then Some i else index_of t l r (S i)
   end.
 Definition known_F7_b (c : case) : bool :=
-  r_put c && match r_prior c with POldCorrupt => true | _ => false end &&
+  negb (r_fix7 c) && r_put c && match r_prior c with POldCorrupt => true | _ => false end &&
   match index_of TB "Trash:v.os.Stat" (r_sched c) 0,
         index_of TA "WriteBlock:v.os.Rename" (r_sched c) 0,
         index_of TB (if r_rm c then "Trash:v.os.Remove" else "Trash:v.os.Rename") (r_sched c) 0 with
